@@ -1,5 +1,19 @@
 """Service: C07, C08 and the service part of C13 (Service.tla / ServiceTrace.tla / harness/cmd/service)."""
+import json, os
 from props import ModuleCheck, T
+
+# Finding F36 (a module-service call stores the sum of all owner tallies under the EMPTY owner; fails
+# C07_OwnerTally from then on).  Until known_findings.json has an entry matching "why.f36" (or the code is
+# fixed and FixF36 = TRUE in the cfgs), the random driver does not call the module service while owner tallies
+# exist (driver cfg f36=0) and the scenario is listed in SERVICE_PENDING only; both join automatically.
+def _f36_known():
+    try:
+        k = json.load(open(os.path.join(os.path.dirname(os.path.dirname(os.path.dirname(os.path.abspath(__file__)))),
+                                        "known_findings.json")))
+        return any("why.f36" in f.get("match", {}) for f in k.get("findings", []))
+    except Exception:
+        return False
+F36_KNOWN = _f36_known()
 
 
 SERVICE_CLAUSES_C07 = ["C07_DepositEscrow", "C07_RequestEscrow", "C07_OwnerTally", "C07_Charge", "C07_Answer",
@@ -16,7 +30,7 @@ SERVICE_SCN_CFG = "users=3,init=50,taxnum=1,taxden=2,slashnum=1,slashden=2,maxti
 
 SERVICE_EXT_CFG = "users=4,init=60,initbtc=20,taxnum=1,taxden=2,slashnum=1,slashden=2,maxtimeout=3,minmult=2,mindep=3,wait=3"
 SERVICE_BTC_CFG = "users=3,init=50,initbtc=20,taxnum=1,taxden=2,slashnum=1,slashden=2,maxtimeout=2,minmult=1,mindep=2,wait=2"
-SERVICE_BTC_RND = "users=4,init=60,initbtc=30,taxnum=1,taxden=4,slashnum=1,slashden=2,btc=1"
+SERVICE_BTC_RND = "users=4,init=60,initbtc=30,taxnum=1,taxden=4,slashnum=1,slashden=2,btc=1" + (",f36=1" if F36_KNOWN else "")
 SERVICE_MULTI_CFG = "users=3,init=50,taxnum=1,taxden=2,slashnum=0,slashden=1,maxtimeout=2,minmult=1,mindep=2,wait=2"
 
 SERVICE_RND = T(
@@ -43,6 +57,9 @@ SERVICE_SCN = [dict(file="scenarios/service_cover.ndjson", cfg=SERVICE_SCN_CFG),
                dict(file="scenarios/service_modsvc.ndjson", cfg=SERVICE_BTC_CFG)]
 # regression: owner tally in two denoms (finding F35, fixed by a72912e)
 SERVICE_SCN.append(dict(file="scenarios/service_F35.ndjson", cfg=SERVICE_BTC_CFG))
+SERVICE_PENDING = [dict(file="scenarios/service_F36.ndjson", cfg=SERVICE_BTC_CFG)]
+if F36_KNOWN:
+    SERVICE_SCN += SERVICE_PENDING
 # MC_Service_D: a provider priced in a denom that needs an exchange rate (no feed: context paused; was F20), 5 heights
 SERVICE_MC = T([dict(cfg="MC_Service.cfg", timeout=1500, heap="4g"), dict(cfg="MC_Service_D.cfg", timeout=900, heap="4g")],
                # thorough: 9 heights / timeouts 1-2 (one context); two concurrent contexts (rank orders, consumer
